@@ -12,7 +12,7 @@ var RuleEdits = []string{
 	"dupOperationID", "pathParamNotInTemplate", "placeholderWithoutParam", "placeholderRepeatedAdjacent", "placeholderRepeatedApart",
 	"pathParamNotRequired", "dupParamInline", "dupParamViaShared", "twoBodyParams", "bodyAndForm",
 	"paramArrayNoItems", "paramNestedArrayNoItems", "headerArrayNoItems", "schemaArrayNoItems",
-	"requiredUndefined", "unresolvableDefinitionRef", "unresolvableParameterRef", "unresolvableResponseRef",
+	"requiredUndefined", "requiredUndefinedWithSchemaAdditionalProperties", "unresolvableDefinitionRef", "unresolvableParameterRef", "unresolvableResponseRef",
 	"dupInheritedProperty", "circularAncestry", "overlappingPaths", "overlappingPaths3",
 	"invalidPatternParam", "invalidPatternNonStringParam", "unresolvableAllOfRef", "invalidPatternHeader", "invalidPatternSchema", "invalidPatternItems",
 	"missingPaths", "emptyPlaceholder",
@@ -289,6 +289,31 @@ func ApplyRuleEdit(t *rapid.T, name string, doc map[string]any, info *SpecInfo) 
 				continue
 			}
 			d["required"] = append(req, "ghostProperty")
+			return true
+		}
+		return false
+	case "requiredUndefinedWithSchemaAdditionalProperties":
+		// a schema-valued additionalProperties does not define the required name either (the library looks for
+		// the name inside that schema; a plain {"type":"string"} has no such property)
+		defs, keys := sortedDefs(doc)
+		for _, k := range keys {
+			d, _ := defs[k].(map[string]any)
+			if _, isAllOf := d["allOf"]; isAllOf {
+				continue
+			}
+			if _, has := d["additionalProperties"]; has {
+				continue
+			}
+			req, _ := d["required"].([]any)
+			clash := false
+			for _, r := range req {
+				clash = clash || r == "ghostProperty" || r == "satisfiedGhost" || r == "ghostBesideSchema"
+			}
+			if clash {
+				continue
+			}
+			d["required"] = append(req, "ghostBesideSchema")
+			d["additionalProperties"] = map[string]any{"type": "string"}
 			return true
 		}
 		return false
